@@ -159,6 +159,22 @@ fn alphabet() -> Vec<Protocol<'static>> {
     ]
 }
 
+/// A few realistic shapes first, so that the witness kept per signature is a readable one.
+fn part_a_fixed(check: &Check) {
+    let (req, other) = *ids();
+    let observed: Multiaddr = "/ip4/203.0.113.7/tcp/4001".parse().unwrap();
+    for d in [
+        "/ip4/198.51.100.99/tcp/4001/ip4/10.0.0.1/tcp/80".to_string(),
+        format!("/ip4/198.51.100.99/p2p/{req}/tcp/4001"),
+        format!("/ip4/198.51.100.99/tcp/4001/p2p/{req}"),
+        format!("/ip4/198.51.100.99/tcp/4001/p2p/{other}"),
+        format!("/ip4/198.51.100.99/tcp/4001/p2p/{other}/p2p-circuit/p2p/{req}"),
+        "/dns4/victim.example/tcp/4001".to_string(),
+    ] {
+        one_call(check, vec![d.parse().unwrap()], &observed, "fixed");
+    }
+}
+
 fn part_a_exhaustive(check: &Check, max_len: usize) {
     let alpha = alphabet();
     let observed = observed_addrs();
@@ -292,6 +308,7 @@ pub fn run(args: &Args) -> i32 {
     );
     let tiny = util::tiny(args);
     let max_len = if tiny { 2 } else { args.tier.pick(4, 5) };
+    part_a_fixed(&check);
     part_a_exhaustive(&check, max_len);
     part_a_random(&check, args, if tiny { 20 } else { args.tier.pick(100_000, 2_000_000) });
     part_b(&check, args);
